@@ -108,6 +108,16 @@ SuccDevFeeDefault(s, e) ==
     ELSE {}
 \* named deviations of ServiceFailover!DevOnFalse seen through the cache layer: the failure of the fail-over loop is
 \* turned into the answer "0" / "unspent"
+\* named deviation: the cache keeps ONE order number per transaction and uses it both as position in the block and as
+\* position in an address's history, filled in as transactions happen to arrive; several transactions of one address in the
+\* SAME block can therefore come out in another order than the provider's, and "the transactions after t" for a t inside
+\* that block is answered with another part of the block (e.sameblock: the address's transactions in the block of t)
+SetOf(q) == {q[i] : i \in 1..Len(q)}
+SuccDevAfterInsideBlock(s, e) ==
+    IF /\ e.op = "txs" /\ e.ok /\ e.after > 0 /\ e.ret # e.full /\ "sameblock" \in DOMAIN e
+       /\ ((SetOf(e.ret) \ SetOf(e.full)) \cup (SetOf(e.full) \ SetOf(e.ret))) \subseteq SetOf(e.sameblock)
+       /\ (SetOf(e.ret) \cup SetOf(e.full)) \subseteq s.known \cup SetOf(e.full)
+    THEN {s} ELSE {}
 SuccDevBalanceZero(s, e) == IF e.op = "balance" /\ e.prov = "fail" /\ e.ok /\ e.ret = 0 THEN {s} ELSE {}
 SuccDevIsSpentFalse(s, e) == IF e.op = "isspent" /\ e.prov = "fail" /\ e.ok /\ e.ret = FALSE THEN {s} ELSE {}
 =============================================================================
